@@ -81,7 +81,8 @@ Lemma apply_single_untouched st sgid i later st' later' k g t :
   exists g', nth_opt (m_subgraphs (ps_model st')) k = Some g' /\
     tensor_at g' t = tensor_at g t /\ ntens g <= ntens g' /\
     (Z.to_nat sgid = k ->
-     forall j, In j later' -> i_tensor j = t -> exists j0, In j0 later /\ i_tensor j0 = t) /\
+     forall j, In j later' -> i_tensor j = t ->
+               exists j0, In j0 later /\ i_tensor j0 = t /\ i_trans j0 = i_trans j) /\
     (forall j, In j later' -> 0 <= i_tensor j \/ exists j0, In j0 later /\ i_tensor j0 = i_tensor j).
 Proof.
   intros Hs Hit Hg Ht Hne H.
@@ -98,7 +99,8 @@ Proof.
   destruct (trans_of_other _ _ _ _ _ _ _ _ _ _ Hit T) as (Hn & Ho & Hinfo).
   assert (Hlater : forall X,
             later' = later \/ (to_tensor info = ntens g0 /\ later' = update_instructions later i X (to_tensor info)) ->
-            (Z.to_nat sgid = k -> forall j, In j later' -> i_tensor j = t -> exists j0, In j0 later /\ i_tensor j0 = t) /\
+            (Z.to_nat sgid = k -> forall j, In j later' -> i_tensor j = t ->
+                                  exists j0, In j0 later /\ i_tensor j0 = t /\ i_trans j0 = i_trans j) /\
             (forall j, In j later' -> 0 <= i_tensor j \/ exists j0, In j0 later /\ i_tensor j0 = i_tensor j)).
   { intros X [->|[Hto ->]].
     - split; [intros _ j Hj Hjt; eauto|intros j Hj; right; eauto].
@@ -127,10 +129,14 @@ Proof.
       exact (Hlater X (or_intror (conj Hto eq_refl))) end.
 Qed.
 
+(* an instruction is QUIET about t if it is skipped by the performer
+   (NO_QUANTIZE) or names another tensor *)
+Definition quiet (t : Z) (i : inst) : Prop := is_insertion (i_trans i) = true -> i_tensor i <> t.
+
 Lemma apply_insts_untouched sg k t : 0 <= sg -> forall fuel is st st' g,
   Forall (fun i => 0 <= i_tensor i) is ->
   nth_opt (m_subgraphs (ps_model st)) k = Some g -> 0 <= t < ntens g ->
-  (Z.to_nat sg <> k \/ Forall (fun i => i_tensor i <> t) is) ->
+  (Z.to_nat sg <> k \/ Forall (quiet t) is) ->
   apply_insts st sg is fuel = Ok st' ->
   exists g', nth_opt (m_subgraphs (ps_model st')) k = Some g' /\
              tensor_at g' t = tensor_at g t /\ ntens g <= ntens g'.
@@ -140,21 +146,21 @@ Proof.
   - destruct is as [|i later]; cbn [apply_insts] in H.
     + inversion H; subst. exists g. split; [exact Hg|]. split; [reflexivity|lia].
     + inversion Hnn as [|? ? Hi Hnn']; subst.
-      assert (Hno' : Z.to_nat sg <> k \/ Forall (fun i => i_tensor i <> t) later).
+      assert (Hno' : Z.to_nat sg <> k \/ Forall (quiet t) later).
       { destruct Hno as [C|F]; [left; exact C|right; inversion F; assumption]. }
-      destruct (is_insertion (i_trans i)).
+      destruct (is_insertion (i_trans i)) eqn:Eins.
       * destruct (apply_single st sg i later) as [[st1 later1]|] eqn:E; cbn [bind fst snd] in H; [|discriminate].
         assert (Hne : Z.to_nat sg <> k \/ i_tensor i <> t).
-        { destruct Hno as [C|F]; [left; exact C|right; inversion F; assumption]. }
+        { destruct Hno as [C|F]; [left; exact C|right; inversion F as [|? ? Fq _]; apply Fq; exact Eins]. }
         destruct (apply_single_untouched _ _ _ _ _ _ _ _ _ Hs Hi Hg Ht Hne E) as (g1 & Hg1 & Et & Hn & L1 & L2).
         assert (Hnn1 : Forall (fun i => 0 <= i_tensor i) later1).
         { apply Forall_forall. intros j Hj. destruct (L2 j Hj) as [Hj0|(j0 & Hj0 & Ej)]; [exact Hj0|].
           rewrite <- Ej. rewrite Forall_forall in Hnn'. apply Hnn'. exact Hj0. }
-        assert (Hno1 : Z.to_nat sg <> k \/ Forall (fun i => i_tensor i <> t) later1).
+        assert (Hno1 : Z.to_nat sg <> k \/ Forall (quiet t) later1).
         { destruct Hno' as [C|F]; [left; exact C|].
           destruct (Nat.eq_dec (Z.to_nat sg) k) as [Ek|Nk]; [|left; exact Nk].
-          right. apply Forall_forall. intros j Hj Ejt. destruct (L1 Ek j Hj Ejt) as (j0 & Hj0 & Ej0).
-          rewrite Forall_forall in F. exact (F j0 Hj0 Ej0). }
+          right. apply Forall_forall. intros j Hj Hjins Ejt. destruct (L1 Ek j Hj Ejt) as (j0 & Hj0 & Ej0 & Etr).
+          rewrite Forall_forall in F. apply (F j0 Hj0); [rewrite Etr; exact Hjins|exact Ej0]. }
         destruct (IH later1 st1 st' g1 Hnn1 Hg1 ltac:(lia) Hno1 H) as (g2 & Hg2 & Et2 & Hn2).
         exists g2. split; [exact Hg2|]. split; [congruence|lia].
       * destruct (qtrans_eqb (i_trans i) Tr_EMULATED_SUBCHANNEL); [discriminate|].
@@ -167,7 +173,7 @@ Definition run_all (tis : list tinsts) (st : pstate) : res pstate :=
 Definition ids_ok (tis : list tinsts) : Prop :=
   Forall (fun ti => 0 <= ti_sg ti /\ Forall (fun i => 0 <= i_tensor i) (ti_insts ti)) tis.
 Definition never_names (k : nat) (t : Z) (tis : list tinsts) : Prop :=
-  forall ti i, In ti tis -> ti_sg ti = Z.of_nat k -> In i (ti_insts ti) -> i_tensor i <> t.
+  forall ti i, In ti tis -> ti_sg ti = Z.of_nat k -> In i (ti_insts ti) -> quiet t i.
 
 Lemma run_all_untouched k t : forall tis st0 st1 g0,
   ids_ok tis -> never_names k t tis ->
@@ -180,7 +186,7 @@ Proof.
   - inversion H; subst. exists g0. split; [exact Hg|]. split; [reflexivity|lia].
   - inversion Hok as [|? ? [Hsg Hnn] Hok']; subst.
     destruct (apply_insts st0 (ti_sg ti) (ti_insts ti) (length (ti_insts ti))) as [st2|] eqn:E; cbn [bind] in H; [|discriminate].
-    assert (Hno1 : Z.to_nat (ti_sg ti) <> k \/ Forall (fun i => i_tensor i <> t) (ti_insts ti)).
+    assert (Hno1 : Z.to_nat (ti_sg ti) <> k \/ Forall (quiet t) (ti_insts ti)).
     { destruct (Z.eq_dec (ti_sg ti) (Z.of_nat k)) as [Ek|Nk].
       - right. apply Forall_forall. intros i Hi. exact (Hno ti i (or_introl eq_refl) Ek Hi).
       - left. lia. }
